@@ -1,6 +1,6 @@
 (* C10, the last clause as ONE theorem: the closure of the proved re-spellings of a whole URL text - letter case of the
    scheme, an explicit default port, letter case of the host name, dropped path segments ("." , empty, "x/.."), a dropped
-   fragment, another IPv4 notation of the same address, the letter case of the hex digits of escapes in path, query and
+   fragment, another IPv4 or IPv6 notation of the same address, the letter case of the hex digits of escapes in path, query and
    fragment - applied any number of times, in any order and in either direction,
    relates only URLs that are both rejected with the same kind or parse to the same normalized form, scheme, host, port,
    path and query. *)
@@ -107,6 +107,14 @@ Inductive respell1 : str -> str -> Prop :=
     let U := match u with Some x => x ++ [64] | None => [] end in
     plain_text (sch ++ 58 :: [47; 47] ++ (U ++ a ++ pp) ++ R) -> plain_text (sch ++ 58 :: [47; 47] ++ (U ++ a' ++ pp) ++ R) ->
     respell1 (sch ++ 58 :: [47; 47] ++ (U ++ a ++ pp) ++ R) (sch ++ 58 :: [47; 47] ++ (U ++ a' ++ pp) ++ R)
+| rs_ipv6 sch sc dport (u : option str) x x' pp R :
+    scheme_text lower_o sch sc dport ->
+    (forall y, u = Some y -> memb 64 y = false /\ memb 47 y = false /\ memb 63 y = false /\ memb 35 y = false) ->
+    ipv6_inner x -> ipv6_inner x' -> ipv6_o x = ipv6_o x' -> port_text pp -> rest_ok R ->
+    let U := match u with Some y => y ++ [64] | None => [] end in
+    plain_text (sch ++ 58 :: [47; 47] ++ (U ++ (91 :: x ++ [93]) ++ pp) ++ R) ->
+    plain_text (sch ++ 58 :: [47; 47] ++ (U ++ (91 :: x' ++ [93]) ++ pp) ++ R) ->
+    respell1 (sch ++ 58 :: [47; 47] ++ (U ++ (91 :: x ++ [93]) ++ pp) ++ R) (sch ++ 58 :: [47; 47] ++ (U ++ (91 :: x' ++ [93]) ++ pp) ++ R)
 | rs_segments sch sc dport A (c : N) (a b : str) (mid : list str) T :
     scheme_text lower_o sch sc dport ->
     memb 47 A = false -> memb 63 A = false -> memb 35 A = false ->
@@ -169,6 +177,13 @@ Proof.
     match goal with |- match parse ?x with _ => _ end => destruct (parse x) as [i|k] eqn:E1 end;
       match goal with |- match parse ?x with _ => _ end => destruct (parse x) as [i'|k'] eqn:E2 end; try contradiction; [|exact T].
     rewrite (parse_ok_network _ _ _ _ _ H H16 E1), (parse_ok_network _ _ _ _ _ H H17 E2).
+    split; [reflexivity | intros _]. destruct T as [A [B [C [D [E [F _]]]]]]. repeat split; assumption.
+  - (* IPv6 notation *)
+    pose proof (parse_url_ipv6 enc lower_o idna_o ipv6_o int_o unq_o sch sc dport u x x' pp R H H0 H1 H2 H3 H4 H5 H6 H7) as T.
+    cbv zeta in T. unfold same_url in T. unfold same_norm. subst U.
+    match goal with |- match parse ?z with _ => _ end => destruct (parse z) as [i|k] eqn:E1 end;
+      match goal with |- match parse ?z with _ => _ end => destruct (parse z) as [i'|k'] eqn:E2 end; try contradiction; [|exact T].
+    rewrite (parse_ok_network _ _ _ _ _ H H6 E1), (parse_ok_network _ _ _ _ _ H H7 E2).
     split; [reflexivity | intros _]. destruct T as [A [B [C [D [E [F _]]]]]]. repeat split; assumption.
   - (* dropped segments *)
     pose proof (parse_url_insert_segments enc lower_o idna_o ipv6_o int_o unq_o sch sc dport A c a b mid T
